@@ -54,8 +54,10 @@ def main(argv: list[str]) -> int:
     cdir = core.ROOT / "corpus" / prop
     if cdir.is_dir() and hasattr(mod, "oracle"):
         for f in sorted(cdir.glob("*.json")):
-            case = json.loads(f.read_text())
-            case = case.get("case", case)
+            import ast
+
+            payload = json.loads(f.read_text())
+            case = ast.literal_eval(payload["case_py"]) if "case_py" in payload else payload.get("case", payload)
             r = mod.oracle(case)
             ctx.count(("corpus", f.name), True, "corpus")
             if r is not None:
